@@ -507,6 +507,13 @@ class ExecutionState:
 
         self._checkpoint_queue.put(queued_op)
 
+        # Check again: the background thread may have failed, drained the queues and exited
+        # between the check above and the put, in which case nobody would ever process (or
+        # signal) this operation. The failure flag is raised before the queues are drained,
+        # so either this check sees it or the drain sees the operation.
+        if self._checkpointing_failed.is_set():
+            self._checkpointing_failed.wait()
+
     def create_checkpoint_sync(
         self,
         operation_update: OperationUpdate | None = None,
@@ -655,6 +662,10 @@ class ExecutionState:
                         "Checkpoint creation failed", e
                     )
 
+                    # Set the failure event first so that checkpoint attempts racing with the
+                    # drain below either see it or are found in the queue by the drain
+                    self._checkpointing_failed.set(bg_error)
+
                     # FIFO: although at this point order not really import any anymore
                     # Signal completion events for the failed batch
                     for queued_op in batch:
@@ -678,9 +689,6 @@ class ExecutionState:
                                 item.completion_event.set(bg_error)
                         except queue.Empty:
                             break
-
-                    # Set the failure event so future checkpoint attempts fail immediately
-                    self._checkpointing_failed.set(bg_error)
 
                     # Exit the loop - error has been signaled to main thread via completion events
                     break
